@@ -59,13 +59,21 @@ def build_harness(race=False):
     if rc != 0:
         return False, "extractor build failed:\n" + e
     env = dict(GOENV)
-    cmd = ["go", "build", "-tags", "verif", "-o", PVH, "./cmd/pvh"]
+    modfile = []
+    if REPO != "/repo":
+        # VERIF_REPO=<other tree> (used to try seeded changes in a scratch worktree while /repo is busy): same go.mod with
+        # the replace directive pointing at that tree
+        alt = os.path.join(WORK, "alt.mod")
+        open(alt, "w").write(open(os.path.join(hdir, "go.mod")).read().replace("=> /repo", "=> " + REPO))
+        open(os.path.join(WORK, "alt.sum"), "w").write(want)
+        modfile = ["-modfile=" + alt]
+    cmd = ["go", "build"] + modfile + ["-tags", "verif", "-o", PVH, "./cmd/pvh"]
     rc, o, e = sh(cmd, cwd=hdir, env=env)
     if rc != 0:
         return False, "harness build against /repo failed (does /repo still compile?):\n" + e
     if race:
         env["CGO_ENABLED"] = "1"
-        rc, o, e = sh(["go", "build", "-race", "-tags", "verif", "-o", PVH + "-race", "./cmd/pvh"], cwd=hdir, env=env)
+        rc, o, e = sh(["go", "build"] + modfile + ["-race", "-tags", "verif", "-o", PVH + "-race", "./cmd/pvh"], cwd=hdir, env=env)
         if rc != 0:
             return False, "race harness build failed:\n" + e
     return True, ""
@@ -162,38 +170,52 @@ def gen_cases(prop, seed, n, tier):
     return [json.loads(l) for l in o.splitlines() if l.strip()]
 
 
-def run_impl(cases, timeout=3600, pvh=None, env=None):
-    """run the REAL implementation on the cases; returns {id: impl}"""
+def run_impl(cases, timeout=3600, pvh=None, env=None, _budget=None):
+    """run the REAL implementation on the cases; returns {id: impl}.
+    A process that dies (fatal error, OOM, per-case time-out, os.Exit inside the code under test) is re-run on the rest of the
+    cases, the offending case alone. After `death_budget` deaths in one call the remaining cases are not run (class "not-run"):
+    the deaths already decide the check, and a tree on which most inputs crash must not take hours to report."""
     if not cases:
         return {}
+    if _budget is None:
+        _budget = {"left": int(os.environ.get("VERIF_DEATH_BUDGET", "12"))}
     inp = "\n".join(json.dumps(c) for c in cases) + "\n"
     e2 = dict(os.environ)
     e2.setdefault("GOMEMLIMIT", "6GiB")
+    e2.setdefault("PVH_CASE_TIMEOUT_S", "45")
     if env:
         e2.update(env)
-    p = subprocess.run([pvh or PVH, "run"], input=inp, stdout=subprocess.PIPE, stderr=subprocess.PIPE, text=True,
-                       timeout=timeout, env=e2)
+    try:
+        p = subprocess.run([pvh or PVH, "run"], input=inp, stdout=subprocess.PIPE, stderr=subprocess.PIPE, text=True,
+                           timeout=timeout, env=e2)
+        out, err, rc = p.stdout, p.stderr, p.returncode
+    except subprocess.TimeoutExpired as ex:
+        out = ex.stdout.decode() if isinstance(ex.stdout, bytes) else (ex.stdout or "")
+        err, rc = "harness run timed out after %ss" % timeout, -9
     res = {}
-    for l in p.stdout.splitlines():
+    for l in out.splitlines():
         if l.strip():
             try:
                 j = json.loads(l)
                 res[j["id"]] = j["impl"]
             except Exception:
                 pass
-    if p.returncode != 0 or len(res) < len(cases):
-        # the process died (fatal error, OOM, os.Exit inside the code under test): re-run the rest one by one
+    if rc != 0 or len(res) < len(cases):
         done = set(res)
         rest = [c for c in cases if c["id"] not in done]
         if len(rest) == len(cases) and len(cases) == 1:
-            err = p.stderr or ""
             k = err.find("WARNING: DATA RACE")
             res[cases[0]["id"]] = {"class": "process-died", "msg": err[k:k + 1800] if k >= 0 else err[-400:]}
             return res
         if rest:
+            _budget["left"] -= 1
+            if _budget["left"] < 0:
+                for c in rest:
+                    res[c["id"]] = {"class": "not-run", "msg": "death budget of this run exhausted"}
+                return res
             first, others = rest[0], rest[1:]
-            res.update(run_impl([first], timeout, pvh, env))
-            res.update(run_impl(others, timeout, pvh, env))
+            res.update(run_impl([first], timeout, pvh, env, _budget))
+            res.update(run_impl(others, timeout, pvh, env, _budget))
     return res
 
 
@@ -245,8 +267,10 @@ def write_replay(prop, payload):
 
 
 def write_evidence(prop, ev):
-    os.makedirs(os.path.join(VERIF, "evidence"), exist_ok=True)
-    path = os.path.join(VERIF, "evidence", prop + ".json")
+    # runs against a tree other than /repo (seeded changes in a scratch worktree) must not overwrite the evidence of /repo
+    evdir = os.path.join(VERIF, "evidence") if REPO == "/repo" else os.path.join(WORK, "evidence-other-tree")
+    os.makedirs(evdir, exist_ok=True)
+    path = os.path.join(evdir, prop + ".json")
     tmp = path + ".tmp%d" % os.getpid()
     json.dump(ev, open(tmp, "w"), indent=1, sort_keys=True)
     os.replace(tmp, path)
